@@ -46,8 +46,14 @@ def gen(rng, tier):
     # memory sizes across 2³¹ bytes (2 GiB: where a 32-bit quantity in the memory arithmetic would give out): accepted and equal to
     # libsodium (implementation and libsodium only — the Lean driver does not evaluate gigabyte instances; the bounds themselves are
     # in the translated Pwhash kernel)
-    for memb in ([2 ** 31 + 4096] if tier == "quick" else [2 ** 31 - 4096, 2 ** 31, 2 ** 31 + 4096, 2 ** 32 + 8192]):
+    for memb in ([2 ** 31 + 4096, 2 ** 32 + 8192] if tier == "quick" else [2 ** 31 - 4096, 2 ** 31, 2 ** 31 + 4096, 2 ** 32 + 8192, 2 ** 32 + 2 ** 23]):
         cs.append(Case("pwhash_big 2 32 1 %d %s %s" % (memb, hx(good[0]), hx(good[1])), cls="accept/mem-over-2GiB", expect="ok", meta={"no_spec": True}))
+    # the bytes → KiB conversion for limits of 4 GiB and more, without hashing: the string of such a limit is compared with the limit
+    import pwfam as _pf
+    for memb in (2 ** 32, 2 ** 32 + 8192, 2 ** 32 + 2 ** 23, 2 ** 40, 4398046510080 - 1024):
+        st = _pf.mkstr("argon2id", 3, memb // 1024, rbytes(rng, 16), rbytes(rng, 32))
+        cs.append(Case("pwhash_needs_rehash %s 3 %d" % (_pf.shex(st), memb), cls="convert-costs/over-4GiB", expect="ok false", meta={"no_spec": True, "why": "m=%d KiB is what a limit of %d bytes means" % (memb // 1024, memb)}))
+        cs.append(Case("pwhash_needs_rehash %s 3 %d" % (_pf.shex(st), memb % (2 ** 32) if memb % (2 ** 32) >= 8192 else 8192), cls="convert-costs/over-4GiB", expect="ok true", meta={"no_spec": True}))
     # 64-bit cost parameters whose LOW 32 bits look valid: the range check applies to the caller's value, not to the truncated one
     for ops in (2 ** 32 + 1, 2 ** 32 + 3, 2 ** 33 + 2, 2 ** 40 + 1, 2 ** 63 + 1):
         for alg in (1, 2):
